@@ -385,6 +385,8 @@ def oracle_doc(ck: Check, camp, doc: dict, target: tuple, insts: list | None = N
             cause = causes_for(doc, insts[0], style)
             if kind == "dataclasses.dataclass" and "non-default argument" in b.error:
                 cause = "dataclass_non_default_after_default"
+            if cause == "none" and kind == semrun.STYLE_MODEL["v2"] and shadowed_class_names(b.code):
+                cause = "member_name_shadows_class_name"
             ck.fail({**base, "oracle": "valid_rejected", "mechanism": "module_not_importable", "cause": cause}, inp, f"the generated module cannot be imported ({b.error[:200]}): no valid instance can be accepted")
         return
     try:
@@ -424,6 +426,8 @@ def oracle_doc(ck: Check, camp, doc: dict, target: tuple, insts: list | None = N
             ok, obj = b.validate(inst)
             if not ok:
                 c0 = causes_for(doc, inst, style)
+                if c0 == "none" and kind == semrun.STYLE_MODEL["v2"] and shadowed_class_names(b.code):
+                    c0 = "member_name_shadows_class_name"
                 ck.fail({**base, "oracle": "valid_rejected", "mechanism": "validation_error", "cause": c0 if c0 != "none" else f"undeclared_member_ap_{ap}"}, {**inp, "instance": inst}, f"valid instance with an undeclared member rejected: {str(obj)[:200]}")
                 continue
             d = b.dump(obj)
